@@ -162,3 +162,22 @@ VARIANTS += [
          [(EM, "    if isinstance(value, bool):\n        return int(value)\n    if isinstance(value, float) and float(value) == int(value):", "    if isinstance(value, float) and float(value) == int(value):")],
          ("C04.17", "filter_float:bool"), ("C04",)),
 ]
+
+_FMT = ("        text = str(val)\n        if \"e\" in text and \".\" not in text:\n            # A Jaqal number needs a decimal point, which Python omits\n            # from some values in exponent form: 1e-06 -> 1.0e-06\n            text = text.replace(\"e\", \".0e\")\n        return text\n")
+
+VARIANTS += [
+    # ---- seed round 12: the partition idiom of the value writer
+    silent("r13-value-writer-partition-any-bare-mantissa",
+           [(GE, _FMT, "        mantissa, exp, exponent = str(val).partition(\"e\")\n        if exp and \".\" not in mantissa:\n            mantissa += \".0\"\n        return mantissa + exp + exponent\n")],
+           ("C01", "C20")),
+    fire("r13-value-writer-partition-unsigned-only",
+         [(GE, _FMT, "        mantissa, exp, exponent = str(val).partition(\"e\")\n        if exp and mantissa.isdigit():\n            mantissa += \".0\"\n        return mantissa + exp + exponent\n")],
+         ("C01.1", "generate_jaqal_value:number-format:float"), ("C01",)),
+    # ---- the chain walk is not left by `break` either
+    fire("r13-chain-walk-breaks-at-a-whole-register-alias",
+         [(FM, _SLICE, "        if alias_slice is None and isinstance(obj, Register):\n            break\n" + _SLICE)],
+         ("*", "_depends_on_parameter:chain-walk-complete"), ("C06", "C10")),
+    silent("r13-chain-walk-breaks-at-the-fundamental-register",
+           [(FM, _SLICE, "        if getattr(obj, \"fundamental\", False):\n            break\n" + _SLICE)],
+           ("C06", "C10")),
+]
